@@ -52,6 +52,8 @@ type baseState struct {
 	Phase string // round state name
 	Raw   world.Snapshot
 	PreMs []storage.Message
+	// FailAt > 0: the FailAt-th write of the node's store during the pre-step fails once
+	FailAt int
 }
 
 // Materialize rebuilds the base state on the lab's node: the node object's volatile state is
@@ -60,6 +62,10 @@ type baseState struct {
 func (b *baseState) Materialize(lab *Lab) world.Snapshot {
 	lab.Node.Svc.SetSkipCommKeysVerification(false)
 	cur := b.Raw
+	if b.FailAt > 0 {
+		lab.Node.Mem.Arm(b.FailAt)
+		defer lab.Node.Mem.Disarm()
+	}
 	for _, m := range b.PreMs {
 		_, after, _ := lab.Step(cur, m)
 		cur = after
@@ -142,6 +148,23 @@ func baseStates(r *kit.Run, rec *world.Recording, lab *Lab, view int) []baseStat
 				cur = after
 			}
 			out = append(out, baseState{View: view, K: k, Pre: name, Snap: cur, Phase: cur.RoundState(rec.Round), Raw: snap, PreMs: pres[name]})
+			// a reinitialisation that a write failure (a full disk) interrupts: one base state per
+			// write of the step - whatever the step switched off for the replay must be back on
+			if name == "unrelated-reinit" {
+				for f := 1; f <= 64; f++ {
+					lab.Node.Svc.SetSkipCommKeysVerification(false)
+					lab.Node.Mem.Arm(f)
+					cur := snap
+					for _, m := range pres[name] {
+						_, after, _ := lab.Step(cur, m)
+						cur = after
+					}
+					if !lab.Node.Mem.Disarm() {
+						break
+					}
+					out = append(out, baseState{View: view, K: k, Pre: fmt.Sprintf("%s+write-%d-fails", name, f), Snap: cur, Phase: cur.RoundState(rec.Round), Raw: snap, PreMs: pres[name], FailAt: f})
+				}
+			}
 		}
 	}
 	return out
